@@ -600,7 +600,8 @@ class HalmosBitVec:
                 )
 
         if abstraction is None:
-            return HalmosBitVec(other / self, size=size)
+            # z3's `/` on bitvectors is the signed division
+            return HalmosBitVec(self.as_z3() / other.as_z3(), size=size)
 
         return HalmosBitVec(abstraction(lhs, rhs), size=size)
 
